@@ -100,6 +100,8 @@ extern nng_err nni_http_init(nng_http **, nng_stream *, bool);
 
 extern void nni_http_conn_close(nng_http *);
 extern void nni_http_conn_fini(nni_http_conn *);
+extern void nni_http_conn_hold(nni_http_conn *);
+extern void nni_http_conn_rele(nni_http_conn *);
 extern int  nni_http_conn_getopt(
      nng_http *, const char *, void *, size_t *, nni_type);
 extern nng_err nni_http_conn_peer_cert(nng_http *, nng_tls_cert **);
